@@ -12,6 +12,7 @@ import Nq.Lemmas.Pop3Sess
 import Nq.Lemmas.Pop3Heap
 import Nq.Lemmas.Pop3Stat
 import Nq.Lemmas.Pop3Sim
+import Nq.Lemmas.Pop3Walk8
 
 namespace Nq.Props.C19
 open Nq Nq.Pop3 Nq.Pop3Ref Nq.Lemmas.Pop3 Nq.Lemmas.Pop3Heap
@@ -650,17 +651,7 @@ theorem C19_parse_nul (a b : Bytes) (ha : ∀ c ∈ a, c ≠ NUL) :
 to case) and the argument commands() dispatches are those of the independently written
 `Pop3Ref.splitCmd`, which the oracle reads the client's lines with. -/
 theorem C19_parse_ref (line : Bytes) (h : ∀ c ∈ line, c ≠ NUL) :
-    splitCmd line = (lower (parseLine line).1, (parseLine line).2) := by
-  have hall : ∀ l : Bytes, (∀ c ∈ l, c ≠ NUL) → l.takeWhile (fun x : Byte => decide (x ≠ NUL)) = l := by
-    intro l hl
-    exact takeWhile_all _ l (by intro c hc; simpa using hl c hc)
-  unfold splitCmd parseLine
-  split
-  · have hd : ∀ c ∈ line.dropLast, c ≠ NUL := fun c hc => h c (List.dropLast_subset _ hc)
-    simp only [hall _ hd]
-    rfl
-  · simp only [hall _ h]
-    rfl
+    splitCmd line = (lower (parseLine line).1, (parseLine line).2) := parse_ref line h
 
 /-- **commands() runs exactly one handler per LF-terminated line**, in order, on the verb and
 argument of that line; after the handler that ends the process nothing more is executed. -/
@@ -672,6 +663,81 @@ theorem C19_command_loop (lines : List Bytes) (r : Run) (hc : r.cmd = []) (hl : 
 theorem C19_chunking (r : Run) (a b : Bytes) :
     feedEv (feedEv r (.data a)) (.data b) = feedEv r (.data (a ++ b)) := by
   simp only [feedEv_data, List.foldl_append]
+
+/-! ### the model against the independent reference `Nq.Pop3Ref` (audit repair, finding 4)
+
+`Sim s rs` (`Nq.Lemmas.Pop3Walk2`) relates a model state to a reference state: message by message
+the same path, announced size = length of the reference's data, marked ⇔ in `rs.marked`; a message's
+file is absent ⇔ its path is in `rs.gone`, otherwise it holds the reference's data; `last` is the highest
+marked number; plus the static side conditions (no LF in a message path, at most INT_MAX messages, total
+size below 2^64 - 1, no modulus).  The theorems of the earlier sections that merely unfold one branch of
+`exec` (`C19_listing`, `_list_reply`, `_dele_marks`, `_rset_unmarks`, `_retr_reply`, `_retr_vanished`,
+`_last_reply`, `_stat`, `_refuse`) are the linking lemmas of this simulation. -/
+
+/-- **Step simulation.** For every command other than QUIT, in related states: what the model
+writes, followed by anything, is accepted by the reference as the reply RFC 1939 requires for that
+command — with exactly the reply consumed — the successor states are related again, and the session
+goes on. -/
+theorem C19_step_simulation (s : Sess) (rs : RSt) (h : Sim s rs) (verb arg : Bytes) (hq : verbIs vQuit verb = false) :
+    (∀ w, matchReply (refStep rs (lower verb) arg).2 ((exec s verb arg).2.1 ++ w) = some w) ∧
+    Sim (exec s verb arg).1 (refStep rs (lower verb) arg).1 ∧ (exec s verb arg).2.2 = none := by
+  have hq' : lower verb ≠ vQuit := by simpa [verbIs] using hq
+  have st := step_sim s rs h verb arg hq'
+  exact ⟨st.reply, st.next, st.goes_on⟩
+
+/-- a file removed by somebody else: the states stay related when the reference is told -/
+theorem C19_sim_vanish (s : Sess) (rs : RSt) (h : Sim s rs) (p : Bytes) :
+    Sim { s with fs := fsUnlink s.fs p } { rs with gone := p :: rs.gone } := sim_vanish s rs h p
+
+/-- **The start state is related to the reference's initial state** for the numbering read off
+the message table (`numberingOf`: path and data of the file of that name). Hypotheses on the maildir:
+at most INT_MAX messages, no LF in a path, total size below 2^64 - 1. -/
+theorem C19_sim_start (now : Nat) (fs : FS)
+    (h1 : (getlist now (cleanTmp now fs)).length ≤ INT_MAX)
+    (h2 : ∀ f ∈ fs, LF ∉ f.path)
+    (h3 : ((numberingOf (cleanTmp now fs) (getlist now (cleanTmp now fs))).map (fun r => r.data.length)).sum < U64 - 1) :
+    Sim (start now fs).s { msgs := numberingOf (cleanTmp now fs) (getlist now (cleanTmp now fs)) } :=
+  sim_start now fs h1 h2 h3
+
+/-- … and with unique names that numbering is admissible in the sense of the property (and of the
+driver's oracle): the files themselves, a permutation of the eligible ones, oldest first. -/
+theorem C19_numbering_admissible (now : Nat) (fs : FS) (hu : (fs.map (·.path)).Nodup) :
+    ∃ L : List File, L.Perm (eligible now fs) ∧ L.Pairwise (fun a b => a.mtime ≤ b.mtime) ∧
+      numberingOf (cleanTmp now fs) (getlist now (cleanTmp now fs)) = L.map toR :=
+  numbering_admissible now fs hu
+
+/-- **Session simulation: the reference accepts every transcript of the model.** main() as a
+non-root user on any maildir (side conditions as in `C19_sim_start`; names unique and no message
+carrying the name QUIT would give another: `NamesOk`), fed any sequence of NUL- and LF-free command lines
+and removals by third parties: its output is the greeting followed by `w`, and the reference session
+`walk`, started on the numbering of the maildir, accepts `w` reply by reply (STAT total, LAST, LIST/UIDL
+values, RETR/TOP payloads as decoded by a client, refusals) — ending either without QUIT, in related
+states with the maildir untouched but for the removals (`C19_no_quit_no_delete`), or at QUIT, with
+pop3_quit's lines accepted by `matchQuit`, exit code 0 and the maildir that `quitLoop` leaves from a
+state related to the reference's (`C19_quit_keeps`, `C19_quit_removes`, `C19_quit_renames` say what that
+is, path by path).  This is `sessionOk` of the oracle for the model up to the final comparison of the
+maildir, which is stated path by path rather than as the sorted list `expectFs`. -/
+theorem C19_session_simulation (uid now : Nat) (fs : FS) (levs : List LEv) (hu : uid ≠ 0)
+    (h1 : (getlist now (cleanTmp now fs)).length ≤ INT_MAX)
+    (h2 : ∀ f ∈ fs, LF ∉ f.path)
+    (h3 : ((numberingOf (cleanTmp now fs) (getlist now (cleanTmp now fs))).map (fun r => r.data.length)).sum < U64 - 1)
+    (hn : NamesOk ((getlist now (cleanTmp now fs)).map (·.fn)))
+    (hl : ∀ l, LEv.line l ∈ levs → ∀ c ∈ l, c ≠ NUL ∧ c ≠ LF) :
+    ∃ w rs' q,
+      (Pop3.main uid true now fs (levs.map LEv.toEv)).out = okLine ++ w ∧
+      readLine (okLine ++ w) = some (okSp, w) ∧ isOk okSp = true ∧
+      walk { msgs := numberingOf (cleanTmp now fs) (getlist now (cleanTmp now fs)) } (levs.map LEv.toREv) w = some (rs', q) ∧
+      (Pop3.main uid true now fs (levs.map LEv.toEv)).code = 0 ∧
+      (q = false → ∃ s', Sim s' rs' ∧ (Pop3.main uid true now fs (levs.map LEv.toEv)).fs = s'.fs) ∧
+      (q = true → ∃ s', Sim s' rs' ∧ NamesOk (s'.msgs.map (·.fn)) ∧
+        (Pop3.main uid true now fs (levs.map LEv.toEv)).fs = (quitLoop s'.msgs s'.fs []).1) := by
+  have hfeed := feed_levs levs (start now fs) rfl (fun l hm hh => (hl l hm LF hh).2 rfl)
+  obtain ⟨w, rs', q, w1, w2, w3, w4⟩ := walk_sim levs (start now fs) _ (sim_start now fs h1 h2 h3) rfl hn
+    (fun l hm c hc => (hl l hm c hc).1)
+  rw [main_eq_start uid now fs _ hu, hfeed]
+  refine ⟨w, rs', q, w1, readLine_okLine w, by decide, w2, rfl, ?_, ?_⟩
+  · intro hq; exact ⟨_, (w3 hq).1, rfl⟩
+  · intro hq; exact (w4 hq).2
 
 /-! ### Non-vacuity (bytes written out: 10 = LF, 13 = CR, 46 = '.', 97 = 'a', 32 = SP) -/
 
@@ -725,5 +791,20 @@ example : (exec ⟨[⟨[110, 101, 119, 47, 97], 1, false⟩, ⟨[99, 117, 114, 4
     = [⟨[99, 117, 114, 47, 97, 58, 50, 44], [120], 1, 1⟩] := by decide
 /-- "TOP 1 18446744073709551615": the count saturates, the limit is 0 -/
 example : topCount [49, 32, 49, 56, 52, 52, 54, 55, 52, 52, 48, 55, 51, 55, 48, 57, 53, 53, 49, 54, 49, 53] = some (U64 - 1) := by decide
+
+/-- the hypotheses of `C19_session_simulation` hold for the maildir of the example above and the session
+"DELE 1", new/a removed by somebody else, "retr 3" CR, "QUIT" -/
+def exFs : FS := [⟨[99, 117, 114, 47, 98], [1, 2], 7, 0⟩, ⟨[110, 101, 119, 47, 46, 120], [], 1, 0⟩,
+      ⟨[110, 101, 119, 47, 97], [1], 9, 0⟩, ⟨[110, 101, 119, 47, 99], [1, 2, 3], 3, 0⟩,
+      ⟨[116, 109, 112, 47, 116], [], 1, 0⟩, ⟨[99, 117, 114, 47, 108], [], 10, 0⟩]
+def exLevs : List LEv := [.line [68, 69, 76, 69, 32, 49], .vanish [110, 101, 119, 47, 97], .line [114, 101, 116, 114, 32, 51, 13], .line [81, 85, 73, 84]]
+example : (getlist 10 (cleanTmp 10 exFs)).length ≤ INT_MAX := by decide
+example : ∀ f ∈ exFs, LF ∉ f.path := by decide
+example : ((numberingOf (cleanTmp 10 exFs) (getlist 10 (cleanTmp 10 exFs))).map (fun r => r.data.length)).sum < U64 - 1 := by decide
+example : NamesOk ((getlist 10 (cleanTmp 10 exFs)).map (·.fn)) := by unfold NamesOk; decide
+example : ∀ l, LEv.line l ∈ exLevs → ∀ c ∈ l, c ≠ NUL ∧ c ≠ LF := by
+  intro l hl
+  simp only [exLevs, List.mem_cons, LEv.line.injEq, List.not_mem_nil, or_false, reduceCtorEq, false_or] at hl
+  rcases hl with rfl | rfl | rfl <;> decide
 
 end Nq.Props.C19
